@@ -31,7 +31,9 @@ CONSTANTS
   Weak_LoadOffByOne,           \* LoadValidators rotates h - stored - 1 times
   Weak_PruneDropsLastChanged,  \* PruneStates does not keep the record LastHeightChanged points to
   Weak_PruneDropsCheckpoint,   \* PruneStates does not keep the checkpoint record
-  Weak_NoCheckpointRecord      \* saveValidatorsInfo stores the full set only when the set changed
+  Weak_NoCheckpointRecord,     \* saveValidatorsInfo stores the full set only when the set changed
+  Weak_RecoveryCopyDropsValUpdates \* SaveABCIResponses (DiscardABCIResponses on) writes the crash-recovery copy
+                                   \* without EndBlock.ValidatorUpdates
 
 NoSet == [vals |-> << >>, prop |-> NoVal]
 AsSet(view) == [vals |-> view.vals, prop |-> view.prop, alias |-> FALSE]     \* ValidatorSetFromProto
@@ -124,6 +126,21 @@ PruneStates(db, from, to) ==
      ELSE [err |-> "none",
            db |-> [h \in ((DOMAIN db) \ range) \cup (range \cap keep) |->
                      IF h \in rewrite THEN [lhc |-> h, set |-> LoadValidators(db, h).set] ELSE db[h]]]
+
+\* ------------------------------------------------------------------ crash-recovery copy of the ABCI responses
+\* SaveABCIResponses(height, responses) always writes a second copy under lastABCIResponseKey
+\* ("last ABCI response").  It is the ONLY source of the block's validator updates when the
+\* node dies between the application's Commit and store.Save(state): the handshake
+\* (consensus/replay.go, app = store = state+1) does LoadLastABCIResponse -> mock app ->
+\* ApplyBlock -> updateState.  A response is modelled by what C08 depends on:
+\*   [vu |-> validator updates (the batch), cpu |-> consensus-param update (0 = none)]
+\* `discard` is StoreOptions.DiscardABCIResponses (it only stops the per-height copy).
+LastResponseCopy(resp, discard) ==
+  IF Weak_RecoveryCopyDropsValUpdates /\ discard THEN [resp EXCEPT !.vu = << >>] ELSE resp
+\* the state the handshake rebuilds from the stored copy
+RecoverFromStoredResponses(s, resp, discard) == UpdateState(s, LastResponseCopy(resp, discard).vu)
+\* ... and the state the uninterrupted ApplyBlock computes from the responses in memory
+ApplyBlockUpdates(s, resp) == UpdateState(s, resp.vu)
 
 \* ------------------------------------------------------------------ properties
 \* LookupExact at height h: the store answers, with exactly the set in force (validators
